@@ -36,8 +36,9 @@ RULES = {
     "R9": "the derived screen attributes this property's code relies on (size) have their documented definitions in ScreenBase and every override",
     "R10": "the sample container the code indexes (ThetaHolder.add_theta / get_theta) refuses out-of-range indices and returns the i-th added sample (C10.R3 run here)",
     "R11": "constructor options are live: every attribute the constructor binds from a parameter is read by a method of the class",
+    "R12": "the distance matrix handed to the kernel is the recorded one: to_dense writes every stored value at its own (row, col) and its mirror, refusing incomplete matrices (C07.R3 run here)",
 }
-MIN = {"R1": 1, "R2": 7, "R3": 2, "R4": 2, "R5": 3, "R6": 3, "R7": 3, "R8": 5, "R9": 1, "R10": 3, "R11": 1}
+MIN = {"R1": 1, "R2": 7, "R3": 2, "R4": 2, "R5": 3, "R6": 3, "R7": 3, "R8": 5, "R9": 1, "R10": 3, "R11": 1, "R12": 4}
 TRUSTED = ["distance matrix is symmetric (C07.R3)", "scipy logsumexp(axis=1) reduces the triple axis only", "numpy broadcasting"]
 TECHNIQUE = "polynomial normal form with permutation (S3) symmetry lint; def-use checks of the padding protocol; axis-role lint"
 LEVEL_TEXT = ("Invariance under relabelling of the posterior samples, independence from co-scored plates (axis isolation + "
@@ -646,7 +647,12 @@ def r_options(ctx):
     common.options_are_live(ctx, "R11", ["batchie.scoring.gaussian_dbal.GaussianDBALScorer"], exempt=())
 
 
-RULE_FUNCS = [r1, r2, r3, r4, r5, r6, r7, r8, r_derived, r_holder, r_options]
+def r_br12(ctx):
+    from . import C07
+    ctx.borrow(C07.r3, "R12")
+
+
+RULE_FUNCS = [r1, r2, r3, r4, r5, r6, r7, r8, r_derived, r_holder, r_options, r_br12]
 
 
 def run(ctx):
